@@ -24,6 +24,9 @@ RULE = ('programs = view expression trees of depth 1..2 (quick) / 1..3 (thorough
         'variant (compile-time / clipped / fixed-length run-time / dynamic run-time arguments) x every leaf kind, depth 2..3 = fixed-seed sample over the 23 view functions of the first two groups; '
         'instances = every run-time shape admitted by the leaf types when that set is small (all shapes under a clipped bound, all factorisations '
         'of a fixed buffer), VERIF_SEED-sampled shapes for fixed-dim / bounded-dim / dynamic leaves, run-time arguments derived from the instance; '
+        'second group of TUs: index-array arguments in a bounded container (nmtools_static_vector<int,CAP>, run-time length BELOW and AT the capacity, '
+        'longer than the operand rank) for tile / reshape / broadcast_to / transpose / pad over every leaf kind, outer products of fixed-buffer operands; '
+        'older resolver (bare array::eval(view)): negative / transpose / tile / expand_dims / add over 7 leaf kinds, fixed + VERIF_SEED-sampled shapes; '
         'only instances NumPy accepts. non-trivial = the run-time shape of the instance differs from the nominal shape of the program or the program has depth >= 2')
 EXHAUSTIVE = {'quick': False, 'thorough': False}
 ANCHORS = {
@@ -48,7 +51,9 @@ ASSUMPTIONS = ['which static kind a composed view type gets is decided by C++ me
                'tied to them by comparing the predicted with the printed static knowledge for every generated program of the modelled operations',
                'instances are restricted to positive extents and to arguments NumPy accepts (invalid arguments are C15)',
                'kind combinations the unchanged library cannot compile are excluded (harness/c11_uncompilable.txt)']
-PARTIAL = ['sliding_window: (integer window, one axis) and (window per axis, axis None) are modelled; a list of axes is not (no Lean transfer, not generated)',
+PARTIAL = ['bounded-container (static_vector) arguments are modelled and generated for tile, reshape, broadcast_to, transpose, pad; not for expand_dims axes and '
+           'repeat counts (AxisK / NumK have no bounded kind; array-valued repeats have no transfer function)',
+           'sliding_window: (integer window, one axis) and (window per axis, axis None) are modelled; a list of axes is not (no Lean transfer, not generated)',
            'where: fixed / bounded size of the view are those of ONE broadcast operand since fix commit 9f8dcf6 (before it the decorator default tripled them: former known finding C11.where-tripled-fixed-size)',
            'the older resolver of a bare array::eval(view) (eval.hpp:888-948) is modelled for views over ONE or TWO array::ndarray_t operands '
            '(resolveEvalOld1/2; views with three or more operands, view::where, creation routines without an array operand and nested views are not) '
